@@ -37,6 +37,14 @@ use crate::error::{ErrorReported, ErrorFlag, GatherErrorIteratorExt};
 use crate::pos::Sp;
 use crate::context::CompilerContext;
 
+pub fn division_by_zero_error(op_span: crate::pos::Span, divisor_span: crate::pos::Span) -> crate::diagnostic::Diagnostic {
+    error!(
+        message("division by zero in constant expression"),
+        primary(op_span, "cannot be evaluated"),
+        secondary(divisor_span, "this is zero"),
+    )
+}
+
 #[track_caller]
 fn uncaught_type_error() -> ! {
     panic!("(bug!) type_check should fail...")
@@ -85,6 +93,11 @@ impl ast::UnOpKind {
 }
 
 impl ast::BinOpKind {
+    /// Integer `x / 0` and `x % 0` have no value; callers of [`Self::const_eval`] must report these instead.
+    pub fn is_const_division_by_zero(&self, b: &ScalarValue) -> bool {
+        matches!((self, b), (token![binop /], ScalarValue::Int(0)) | (token![binop %], ScalarValue::Int(0)))
+    }
+
     pub fn const_eval(&self, a: ScalarValue, b: ScalarValue) -> ScalarValue {
         match (a, b) {
             (ScalarValue::Int(a), ScalarValue::Int(b)) => match self {
@@ -233,6 +246,10 @@ impl ast::VisitMut for Visitor<'_, '_> {
 
             ast::Expr::BinOp(a, op, b) => {
                 if let (Some(a_value), Some(b_value)) = (a.to_const(), b.to_const()) {
+                    if op.is_const_division_by_zero(&b_value) {
+                        self.errors.set(self.ctx.emitter.emit(division_by_zero_error(op.span, b.span)));
+                        return;
+                    }
                     e.value = op.const_eval(a_value, b_value).into();
                 };
             },
